@@ -21,7 +21,8 @@ RULE = ("End to end: Hypothesis draws run configurations (N in 1..4, W in 1..7 o
         "(RuntimeError, AssertionError, ValueError incl. LinAlgError) are discarded and counted; a run that dies with a "
         "KeyError/IndexError/AttributeError/NameError/TypeError on a valid input is reported (no labels were returned). "
         "Non-trivial = completed run with W>=2 (a margin exists); joint runs with >=2 distinct lengths are "
-        "counted separately; distinct by SHA-1 of the case.")
+        "counted separately; distinct by SHA-1 of the case."
+        ' Joint runs: block i of the stacked data must be the stacking of input series i (input order). Series with fewer rows than sensors; cost vectors with exact zeros; the multiprocessing switch as a run option.')
 ASSUMPTIONS = ["the master labelling is observed through the guarded run_end hook", "data are finite"]
 
 
@@ -86,6 +87,18 @@ def execute(case, t):
         pl = res.point_labels
         if not isinstance(pl, (list, tuple)) or len(pl) != len(tr.series):
             raise Violation(f"joint front end returned {len(pl) if hasattr(pl, '__len__') else '?'} label lists for {len(tr.series)} series")
+        # "in input order": block i of the data the labelling was computed on is the stacking of series i (so that the i-th
+        # slice of the master labelling really belongs to the i-th series)
+        pos = 0
+        stacked = np.asarray(tr.begin["stacked"])
+        for si, srs in enumerate(tr.series):
+            a = np.asarray(srs, dtype=np.float64)
+            L = len(a) - W + 1
+            ref = np.lib.stride_tricks.sliding_window_view(a, W, axis=0).transpose(0, 2, 1).reshape(L, W * a.shape[1])
+            if stacked[pos:pos + L].shape != ref.shape or not np.array_equal(stacked[pos:pos + L], ref, equal_nan=True):
+                raise Violation(f"the windows labelled as series {si} (rows [{pos},{pos + L}) of the stacked data) are not the windows of "
+                                f"input series {si}: label lists are not in input order (lengths {[len(x) for x in tr.series]}, W={W})")
+            pos += L
         inner_all = []
         for si, (lst, s) in enumerate(zip(pl, tr.series)):
             inner_all.extend(_check_series_labels(lst, len(s), W, K, f"joint front end, series {si}"))
@@ -165,5 +178,5 @@ SUBCHECKS = [
              budget={"quick": 32, "thorough": 400}, shards={"quick": 8, "thorough": 8}, modes=E2E_MODES,
              min_nontrivial_fraction=0.1),
     SubCheck(name="pad_split_helpers_enumerated", enumerate=enumerate_helpers, execute=execute_helpers, exhaustive=True,
-             budget={"quick": 1, "thorough": 1}, shards={"quick": 1, "thorough": 1}, modes=["jit"]),
+             budget={"quick": 1, "thorough": 1}, shards={"quick": 1, "thorough": 1}, modes=["jit", "pyopt"]),
 ]
